@@ -11,13 +11,24 @@ from ..model import AnalysisError, Fn, ancestors, parent, text, walk_fn
 from .c05 import _cfg_node_of_expr
 from .c07 import _value_when_debug_zero
 
-DEBUG_ATTRS = ("context.debug", "self.debug", "self.context.debug", "ctx.debug")
+DEBUG = {"attr": "debug"}          # name of the Context attribute that holds the -d level (found by discover_flags)
+
+
+class _DebugAttrs:
+    """`context.<attr>`, `self.<attr>`, ... for the current name of the level attribute"""
+
+    def __contains__(self, t):
+        a = DEBUG["attr"]
+        return t in (f"context.{a}", f"self.{a}", f"self.context.{a}", f"ctx.{a}")
+
+
+DEBUG_ATTRS = _DebugAttrs()
 
 
 def _debug_reads(fn: Fn) -> List[ast.AST]:
     out = []
     for n in walk_fn(fn.node):
-        if isinstance(n, ast.Attribute) and n.attr == "debug" and isinstance(n.ctx, ast.Load) and text(n) != "args.debug":
+        if isinstance(n, ast.Attribute) and n.attr == DEBUG["attr"] and isinstance(n.ctx, ast.Load) and text(n.value) != "args":
             out.append(n)
     return out
 
@@ -279,7 +290,7 @@ def rule_debug(run, prog):
         for n in walk_fn(fn.node):
             tg = n.targets if isinstance(n, ast.Assign) else [n.target] if isinstance(n, (ast.AugAssign, ast.AnnAssign)) else []
             for t in tg:
-                if isinstance(t, ast.Attribute) and t.attr == "debug":
+                if isinstance(t, ast.Attribute) and t.attr == DEBUG["attr"] and text(t.value) != "args":
                     writes.append((fn, n))
     run.ob("R-16.1", "context.py::Context::debug-written-once", len(writes) == 1 and writes[0][0].key == "context.py::Context.__init__",
            "the debug level is (re)written outside Context.__init__: " + ", ".join(f.key for f, _ in writes), None)
@@ -307,6 +318,45 @@ TREE = {
 BASE_ARGS = ["a.c", "b.h", "sub"]
 
 
+R_FLAGS: Set[str] = {"preproc.skip_define"}      # attributes of the Context that -R is allowed to set (recomputed by rule_R)
+
+
+def _level(snap):
+    v = (snap.get("attrs") or {}).get(DEBUG["attr"])
+    try:
+        return int(v)
+    except (TypeError, ValueError):
+        return v
+
+
+def discover_flags(prog):
+    """Find, on abstract runs, the Context attribute that -d sets and the one(s) that -R CheckDefine sets
+    (they are found by their effect, not by their name: attributes may be renamed)."""
+    runs = _Runs(prog)
+    base = runs.run(BASE_ARGS)
+    if base.crash is not None or not base.events("run"):
+        raise AnalysisError(f"the base run of __main__ does not reach the analysis ({base.crash})")
+    a0 = base.events("run")[0][3].get("attrs") or {}
+    d2 = runs.run(BASE_ARGS, extra=[("-d", []), ("-d", [])])
+    if d2.crash is None and d2.events("run"):
+        a2 = d2.events("run")[0][3].get("attrs") or {}
+        lv = [k for k in set(a0) | set(a2) if a0.get(k) != a2.get(k)]
+        if len(lv) == 1 and "." not in lv[0] and (a0.get(lv[0]), a2.get(lv[0])) == ("0", "2"):
+            DEBUG["attr"] = lv[0]
+    r1 = runs.run(BASE_ARGS, extra=[("-R", ["CheckDefine"])])
+    if r1.crash is None and r1.events("run"):
+        a1 = r1.events("run")[0][3].get("attrs") or {}
+        flags = {k for k in set(a0) | set(a1) if a0.get(k) != a1.get(k)}
+        if flags:
+            R_FLAGS.clear()
+            R_FLAGS.update(flags)
+
+
+def _r_flag(o):
+    """Value of the Context attribute(s) that -R sets, per analysed file."""
+    return [[(e[3].get("attrs") or {}).get(k) for k in sorted(R_FLAGS)] for e in o.events("run")]
+
+
 def _pipeline_record(o, keep_debug=True, keep_skip=True):
     """What the analysis sees: per file (basename, text handed to the lexer, debug level, skip_define, Context ctor shape)."""
     rec = []
@@ -318,8 +368,15 @@ def _pipeline_record(o, keep_debug=True, keep_skip=True):
         cargs, ckw = ctor.get(id(ctx), ([], {}))
         added = repr(cargs[3]) if len(cargs) > 3 else repr(ckw.get("added_value"))
         extra_args = (len(cargs), sorted(k for k in ckw if k not in ("file", "tokens", "debug", "added_value")))
+        attrs = dict(snap.get("attrs") or {})
+        if not keep_debug:
+            attrs.pop(DEBUG["attr"], None)
+        if not keep_skip:
+            for k in list(attrs):
+                if k in R_FLAGS:
+                    attrs.pop(k)
         rec.append((f.__dict__.get("basename"), f.__dict__.get("name"), f.__dict__.get("type"), lexed.get(id(f)),
-                    snap.get("debug") if keep_debug else None, snap.get("skip_define") if keep_skip else None,
+                    _level(snap) if keep_debug else None, sorted(attrs.items()),
                     added if keep_skip else None, extra_args,
                     len(toks) if isinstance(toks, list) else repr(toks)))
     counts = (len(o.events("Lexer")), len(o.events("Context")), len(o.events("run")))
@@ -381,9 +438,19 @@ def rule_R(run, prog):
     main = prog.fn("__main__.py::main")
     runs = _Runs(prog)
     base = runs.run(BASE_ARGS)
+    # which attribute of the Context does -R CheckDefine set?  (found, not assumed: it may be renamed)
+    with_r = runs.run(BASE_ARGS, extra=[("-R", ["CheckDefine"])])
+    run.require(base.crash is None and with_r.crash is None and base.events("run") and with_r.events("run"),
+                f"the base runs of __main__ do not reach the analysis ({base.crash or with_r.crash})")
+    a0, a1 = base.events("run")[0][3].get("attrs") or {}, with_r.events("run")[0][3].get("attrs") or {}
+    flags = {k for k in set(a0) | set(a1) if a0.get(k) != a1.get(k)}
+    R_FLAGS.clear()
+    R_FLAGS.update(flags or {"preproc.skip_define"})
     b_rec = _pipeline_record(base, keep_skip=False)
     bad = None
     word = None
+    if len(flags) != 1 or (a0.get(next(iter(flags))), a1.get(next(iter(flags)))) != ("False", "True"):
+        word = f"-R CheckDefine changes the Context attributes {sorted(flags)} ({[(a0.get(k), a1.get(k)) for k in sorted(flags)]}); expected one flag going from False to True"
     for words, want in ((["CheckDefine"], True), (["CheckDefines"], False), (["xCheckDefine"], False), (["Check"], False),
                         (["checkdefine"], False), (["CheckForbiddenSourceHeader"], False)):
         o = runs.run(BASE_ARGS, extra=[("-R", words)])
@@ -392,11 +459,11 @@ def rule_R(run, prog):
             continue
         if _pipeline_record(o, keep_skip=False) != b_rec or _findings(o, None) != _findings(base, None):
             bad = bad or f"-R {words[0]} changes what the analysis is given besides added_value"
-        sk = [e[3].get("skip_define") for e in o.events("run")]
-        if any(bool(x) != want for x in sk) or not sk:
-            word = word or f"-R {words[0]} gives preproc.skip_define = {sk[:1]} (expected {want})"
-    if any(e[3].get("skip_define") for e in base.events("run")):
-        word = word or "without -R preproc.skip_define is set"
+        sk = _r_flag(o)
+        if any(x != [str(want)] for x in sk) or not sk:
+            word = word or f"-R {words[0]} gives {sorted(R_FLAGS)} = {sk[:1]} (expected {want})"
+    if any(x != ["False"] for x in _r_flag(base)):
+        word = word or f"without -R {sorted(R_FLAGS)} is set"
     run.ob("R-16.2", f"{main.key}::args.R", bad is None, f"args.R is used for something other than Context(..., added_value): {bad}", main.node)
     run.ob("R-16.2", f"{main.key}::R-is-a-word-list", word is None,
            "-R is not handled as a list of words: `'CheckDefine' in added_value` on a plain string is a substring test, so an "
@@ -417,14 +484,13 @@ def rule_R(run, prog):
             except Raised as r:
                 bad = bad or f"Context(..., added_value={av!r}) raises {r.value!r}"
                 continue
-            pp = ctx.__dict__.get("preproc")
-            sk = pp.__dict__.get("skip_define") if pp is not None else None
+            from ..mainmodel import flatten_object
+            flat = flatten_object(b.ev, ctx)
+            sk = [flat.get(k) for k in sorted(R_FLAGS)]
             want = "CheckDefine" in (av or [])
-            if bool(sk) != want:
-                bad = bad or f"added_value={av!r} gives skip_define={sk!r}"
-            rest = {k: (b.ev.py_repr(v) if k != "preproc" else sorted(k2 for k2 in v.__dict__ if k2 != "skip_define"))
-                    for k, v in ctx.__dict__.items() if not k.startswith("_")}
-            snaps.append(rest)
+            if sk != [str(want)]:
+                bad = bad or f"added_value={av!r} gives {sorted(R_FLAGS)}={sk!r}"
+            snaps.append({k: v for k, v in flat.items() if k not in R_FLAGS})
         if any(x != snaps[0] for x in snaps):
             bad = bad or "another attribute of the Context depends on added_value"
     except Unsupported as e:
@@ -432,9 +498,10 @@ def rule_R(run, prog):
     run.ob("R-16.2", f"{ci.key}::added_value", bad is None,
            f"added_value is used for more than the 'CheckDefine' membership test stored in preproc.skip_define: {bad}", ci.node)
     readers = []
+    flag_attr = sorted(R_FLAGS)[0].split(".")[-1]
     for fn in prog.fns:
         for n in walk_fn(fn.node):
-            if isinstance(n, ast.Attribute) and n.attr == "skip_define" and isinstance(n.ctx, ast.Load):
+            if isinstance(n, ast.Attribute) and n.attr == flag_attr and isinstance(n.ctx, ast.Load):
                 readers.append((fn, n))
     cd = prog.method("CheckPreprocessorDefine", "run")
     ok = len(readers) >= 1 and all(f is cd for f, _ in readers)
@@ -553,7 +620,7 @@ def rule_presentation_options(run, prog):
                     bad = bad or f"`{given}` changes what the analysis pipeline is given (Lexer / Context / registry / File)"
                 if role == "debug":
                     lv = len(occ)
-                    got = [e[3].get("debug") for e in o.events("run")]
+                    got = [_level(e[3]) for e in o.events("run")]
                     if any(x != lv for x in got):
                         bad = bad or f"`{given}`: Context gets the debug level {got[:1]} instead of {lv}"
                 if role in ("format", "colors", "debug", "R"):
@@ -571,12 +638,12 @@ def rule_presentation_options(run, prog):
     for extra in ([("--cfile", ["int a; @E\n"])], [("--hfile", ["@N\n"]), ("--filename", ["k.h"])]):
         for lv in (0, 1, 2):
             o = runs.run([], extra=extra + [("-d", [])] * lv)
-            got = [e[3].get("debug") for e in o.events("run")]
+            got = [_level(e[3]) for e in o.events("run")]
             if o.crash is not None or got != [lv]:
                 bad = bad or f"{extra[0][0]} with {lv} x -d: Context debug levels {got} ({o.crash})"
     for lv in (0, 1, 2):
         o = runs.run(BASE_ARGS, extra=[("-d", [])] * lv)
-        got = [e[3].get("debug") for e in o.events("run")]
+        got = [_level(e[3]) for e in o.events("run")]
         if o.crash is not None or any(x != lv for x in got) or len(got) != len(b_rec[0]):
             bad = bad or f"{lv} x -d: Context debug levels {got}"
     run.ob("R-16.3", f"{main.key}::debug-local", bad is None,
@@ -793,6 +860,7 @@ def rule_pipeline(run, prog):
 
 
 def check(run, prog):
+    discover_flags(prog)
     rule_debug(run, prog)
     rule_R(run, prog)
     rule_presentation_options(run, prog)
